@@ -29,6 +29,12 @@ def run(check: Check, repo: Repo, tier: str) -> None:
     S.wrapper_pairing(check, repo, [('utilities.type_comparators', 'is_equal_type'), ('utilities.type_comparators', 'is_type_sub_type_of')])
     S.schema_errors_first(check, repo)
     S.validation_cache(check, repo)
+    from rules import generic_rules as G
+    from rules import type_witness as TW
+    tmods = repo.package_modules("type") + [repo.mod("utilities.type_comparators"), repo.mod("graphql")]
+    G.emptiness_guard(check, [f for m in tmods for f in m.functions()])
+    TW.type_witness(check, repo, tmods)
+    check.floor("TYPE-WITNESS", 8, "modules type-checked")
     from rules import kind_tables as KT
     kp = S.predicate_classes(repo)
     tc = "utilities.type_comparators"
